@@ -446,3 +446,106 @@ Example C09_walk_width_end_to_end_premises_satisfiable :
   WalkEncRows.pc_fix WalkExamples.loop_kpcc = [].
 Proof. exact WalkWidthCaps.loop_width_premises. Qed.
 Print Assumptions C09_walk_width_end_to_end_premises_satisfiable.
+
+(* NODE covers (DilworthNode.v).  Node mode of MinPathCover / kPathCover solves the EDGE cover of the node-expanded graph (v becomes
+   the edge v.0 -> v.1, an edge u -> v the connecting edge u.1 -> v.0; here v.0 = 2v, v.1 = 2v+1) with the connecting edges and
+   the node edges of the ignored nodes in the ignore list.  Derived from C09_min_path_cover_equals_width_st_graph on the expanded
+   instance (not re-proved): for a DAG, the least number of source-to-sink paths covering the non-ignored nodes equals the largest
+   number of non-ignored nodes no two of which lie on a common path (Dilworth for the vertex order), and that is the number the edge
+   model of the expansion has as its minimum; the topological order of the expansion is obtained from one of the graph
+   (C09_topological_order_lifts_to_the_expansion); end to end (solver specification) node-mode MinPathCover returns the node width.
+   The same for walks of digraphs with cycles through the walk-width theorem on the expansion (no condensation is involved).  The
+   expansion over N is the relation C11 proves the model of NodeExpandedDiGraph to build, under any injective naming
+   (C09_node_expansion_is_the_expansion_of_C11). *)
+From FP Require DilworthNode NodeExpProofs.
+Theorem C09_topological_order_lifts_to_the_expansion :
+  forall (V : list node) (E : list (node * node)) (topo : list node),
+  incl V topo -> (forall u v, In (u, v) E -> (posn topo u < posn topo v)%nat) ->
+  forall a b, In (a, b) (DilworthNode.expE V E) ->
+  (posn (DilworthNode.exp_topo topo) a < posn (DilworthNode.exp_topo topo) b)%nat.
+Proof. exact DilworthNode.exp_topo_increasing. Qed.
+Print Assumptions C09_topological_order_lifts_to_the_expansion.
+
+Theorem C09_node_expansion_is_the_expansion_of_C11 :
+  forall name : node -> String.string, (forall u v, name u = name v -> u = v) ->
+  forall (V : list node) (E : list PathEnc.edge) (a b : node),
+  In (a, b) (DilworthNode.expE V E) <->
+  NodeExpProofs.ne_xrel (fun x => exists v, In v V /\ x = name v) (fun x y => exists u v, In (u, v) E /\ x = name u /\ y = name v)
+                        (DilworthNode.sname name a) (DilworthNode.sname name b).
+Proof. exact DilworthNode.expE_is_xrel. Qed.
+Print Assumptions C09_node_expansion_is_the_expansion_of_C11.
+
+Theorem C09_min_node_path_cover_equals_node_width :
+  forall (V : list node) (E : list PathEnc.edge) (s t : node) (topo ign : list node),
+  ~ In s (DilworthNode.expV V) -> ~ In t (DilworthNode.expV V) -> s <> t ->
+  (forall e, In e E -> In (fst e) V /\ In (snd e) V) -> NoDup V -> NoDup E ->
+  (forall u v, In (u, v) E -> (posn topo u < posn topo v)%nat) -> incl V topo ->
+  exists (W : list (list node)) (A : list node),
+    (forall p, In p W -> DilworthNode.nroute V E p) /\
+    (forall v, In v V -> ~ In v ign -> exists p, In p W /\ In v p) /\
+    NoDup A /\ (forall v, In v A -> In v V /\ ~ In v ign) /\ DilworthNode.node_incompatible V E A /\ length A = length W /\
+    (exists P, path_cover (cover_inst (DilworthNode.expV V) (DilworthNode.expE V E) s t (length W))
+                 (synth (DilworthNode.expV V) (DilworthNode.expE V E) s t ++ DilworthNode.node_ignore E ign) P) /\
+    (forall k' P', path_cover (cover_inst (DilworthNode.expV V) (DilworthNode.expE V E) s t k')
+                     (synth (DilworthNode.expV V) (DilworthNode.expE V E) s t ++ DilworthNode.node_ignore E ign) P' ->
+                   (length W <= k')%nat).
+Proof. exact DilworthNode.min_node_path_cover_equals_node_width. Qed.
+Print Assumptions C09_min_node_path_cover_equals_node_width.
+
+Theorem C09_node_cover_has_at_least_node_width_many_paths :
+  forall (V : list node) (E : list PathEnc.edge) (W : list (list node)) (A : list node),
+  NoDup A -> DilworthNode.node_incompatible V E A ->
+  (forall p, In p W -> incl p V /\ incl (EulerProofs1.pairs p) E) ->
+  (forall v, In v A -> exists p, In p W /\ In v p) -> (length A <= length W)%nat.
+Proof. exact DilworthNode.node_cover_needs_node_width_many_paths. Qed.
+Print Assumptions C09_node_cover_has_at_least_node_width_many_paths.
+
+Theorem C09_node_minpathcover_returns_the_node_width :
+  forall (V : list node) (E : list PathEnc.edge) (s t : node) (topo ign : list node)
+         (feasible : nat -> bool) (lb : nat) (sts : list raw),
+  ~ In s (DilworthNode.expV V) -> ~ In t (DilworthNode.expV V) -> s <> t ->
+  (forall e, In e E -> In (fst e) V /\ In (snd e) V) -> NoDup V -> NoDup E ->
+  (forall u v, In (u, v) E -> (posn topo u < posn topo v)%nat) -> incl V topo ->
+  let ignore := synth (DilworthNode.expV V) (DilworthNode.expE V E) s t ++ DilworthNode.node_ignore E ign in
+  (forall k, feasible k = true <->
+     exists a, sat a (encode_kpc (cover_inst (DilworthNode.expV V) (DilworthNode.expE V E) s t k) ignore)) ->
+  (forall i, (i < S (length (DilworthNode.expE V E)) - lb)%nat -> exists x, nth_error sts i = Some x /\
+             status_of x = if feasible (lb + i)%nat then Optimal else Infeasible) ->
+  exists (w : nat) (W : list (list node)) (A : list node),
+    length W = w /\ (forall p, In p W -> DilworthNode.nroute V E p) /\
+    (forall v, In v V -> ~ In v ign -> exists p, In p W /\ In v p) /\
+    length A = w /\ NoDup A /\ (forall v, In v A -> In v V /\ ~ In v ign) /\ DilworthNode.node_incompatible V E A /\
+    (forall A2, NoDup A2 -> DilworthNode.node_incompatible V E A2 -> (forall v, In v A2 -> In v V /\ ~ In v ign) -> (length A2 <= w)%nat) /\
+    ((lb <= w)%nat -> so_res (mpc_solve true lb (S (length (DilworthNode.expE V E))) sts) = Solved w).
+Proof. exact DilworthNode.node_minpathcover_returns_the_node_width. Qed.
+Print Assumptions C09_node_minpathcover_returns_the_node_width.
+
+Theorem C09_min_node_walk_cover_equals_node_walk_width :
+  forall (V : list node) (E : list PathEnc.edge) (S T : list node) (s t : node) (ign : list node),
+  ~ In s (DilworthNode.expV V) -> ~ In t (DilworthNode.expV V) -> s <> t ->
+  (forall e, In e E -> In (fst e) V /\ In (snd e) V) -> NoDup V ->
+  (forall u v,
+     In (u, v) (Aug.aug_edges (DilworthNode.expV V) (DilworthNode.expE V E) (map DilworthNode.x0 S) (map DilworthNode.x1 T) s t) ->
+     Dilworth.conn (Aug.aug_edges (DilworthNode.expV V) (DilworthNode.expE V E) (map DilworthNode.x0 S) (map DilworthNode.x1 T) s t) s u /\
+     Dilworth.conn (Aug.aug_edges (DilworthNode.expV V) (DilworthNode.expE V E) (map DilworthNode.x0 S) (map DilworthNode.x1 T) s t) v t) ->
+  exists (W : list (list node)) (A : list node),
+    (forall p, In p W -> DilworthNode.nwalk V E S T p) /\
+    (forall v, In v V -> ~ In v ign -> exists p, In p W /\ In v p) /\
+    NoDup A /\ (forall v, In v A -> In v V /\ ~ In v ign) /\ DilworthNode.node_incompatible V E A /\ length A = length W.
+Proof. exact DilworthNode.min_node_walk_cover_equals_node_walk_width. Qed.
+Print Assumptions C09_min_node_walk_cover_equals_node_walk_width.
+
+(* non-vacuity on the diamond 1 -> {2,3} -> 4: the premises hold (source 100, sink 101 of the expansion); with node 2 ignored the one
+   path 1 3 4 covers the remaining nodes, while 2 and 3 lie on no common path (so two paths are needed when nothing is ignored) *)
+Example C09_node_width_premises_satisfiable :
+  ~ In 100%N (DilworthNode.expV xV) /\ ~ In 101%N (DilworthNode.expV xV) /\ 100%N <> 101%N /\
+  (forall e, In e xE -> In (fst e) xV /\ In (snd e) xV) /\ NoDup xV /\ NoDup xE /\
+  (forall u v, In (u, v) xE -> (posn [1; 2; 3; 4]%N u < posn [1; 2; 3; 4]%N v)%nat) /\ incl xV [1; 2; 3; 4]%N.
+Proof. exact DilworthNode.node_diamond_premises. Qed.
+Print Assumptions C09_node_width_premises_satisfiable.
+
+Example C09_node_width_on_the_diamond_with_an_ignored_node :
+  DilworthNode.nroute xV xE [1; 3; 4]%N /\ (forall v, In v xV -> ~ In v [2%N] -> In v [1; 3; 4]%N) /\
+  DilworthNode.node_incompatible xV xE [2; 3]%N.
+Proof. exact DilworthNode.node_diamond_ignoring_2. Qed.
+Print Assumptions C09_node_width_on_the_diamond_with_an_ignored_node.
